@@ -468,6 +468,50 @@ for nsub_ in (2, 4):
         return run1(Executor(policy=pol), 'dadi/LowPass/LowPass.py', 'calling_error_matrix', [cd, _n, 0])
     case('LowPass.calling_error_matrix.%d' % nsub_, nat_cem, sym_cem)
 
+# --- the low-pass wrapper on two populations: ndarray.swapaxes, ndarray.dot, in-place *=, sum over simulated entries (precalculated matrices stubbed identically on both sides)
+import dadi as _dadi
+for trial in range(2):
+    nsq, nsb = [2, 3], [1, 2]
+    mdl = arr((3, 4))
+    nocall_ = arr((3, 4), 0.0, 0.9)
+    usim_ = [[False] * 4 for _ in range(3)]
+    usim_[1][2] = True
+    projs_ = [arr((3, 2)), arr((4, 3))]
+    hets_ = [arr((2, 2)), arr((3, 3))]
+    sim_ = arr((2, 3))
+
+    def nat_lp():
+        def pre(*a, **k):
+            return (to_np(nocall_), np.array(usim_), [to_np(x) for x in projs_], [to_np(x) for x in hets_], {(1, 2): to_np(sim_)})
+        old = _LP.low_cov_precalc_GATK_multisample_GATK_multisample
+        _LP.low_cov_precalc_GATK_multisample_GATK_multisample = pre
+        try:
+            f_ = _LP.make_low_pass_func_GATK_multisample(lambda p_, ns_, pts_: _dadi.Spectrum(to_np(mdl), mask_corners=False), None, ['A', 'B'], nsq, nsb)
+            return np.asarray(f_(None, [9, 9], None).data)
+        finally:
+            _LP.low_cov_precalc_GATK_multisample_GATK_multisample = old
+
+    def sym_lp():
+        def pol(fr_):
+            if fr_.qualname == 'low_cov_precalc_GATK_multisample_GATK_multisample':
+                def stub(ex_, f_, a, kw):
+                    sims = VDict()
+                    sims.d[(1, 2)] = to_v(sim_)
+                    return (to_v(nocall_), to_v(usim_), VList([to_v(x) for x in projs_]), VList([to_v(x) for x in hets_]), sims)
+                return stub
+            return 'inline' if fr_.qualname == 'make_low_pass_func_GATK_multisample' else 'abstract'
+
+        def mf(p_, ns_, pts_):
+            v = to_v(mdl)
+            v.attrs = dict(folded=False, extrap_x=None)
+            return v
+        ex_ = Executor(policy=pol)
+        mk_ = ex_.func('dadi/LowPass/LowPass.py', 'make_low_pass_func_GATK_multisample')
+        paths = ex_.explore(lambda e: e.call(e.call(mk_, [PyFn(mf, 'func'), None, VList(['A', 'B']), VList(list(nsq)), VList(list(nsb))], {}), [None, VList([9, 9]), None], {}))
+        assert len(paths) == 1 and paths[0].outcome == 'return', paths
+        return paths[0].value
+    case('LowPass.lowpass_func.2pop.%d' % trial, nat_lp, sym_lp)
+
 print('E2-vs-CPython cross-check: %d cases, %d mismatches (seed %d)' % (count[0], len(fails), seed))
 for n_, why in fails:
     print('MISMATCH %s: %s' % (n_, why))
